@@ -311,6 +311,24 @@ func (pConn *PFCPConn) handleSessionModificationRequest(msg message.Message) (me
 
 		p.fseidIP = fseidIP
 
+		// an update changes what the rule matches, not what the UP holds for it:
+		// the counter cell, the UE address it allocated and the TEID it chose stay with the rule
+		for _, stored := range session.pdrs {
+			if stored.pdrID != p.pdrID {
+				continue
+			}
+
+			p.ctrID = stored.ctrID
+
+			if stored.allocIPFlag {
+				p.allocIPFlag = true
+			}
+
+			if stored.UPAllocateFteid && stored.tunnelTEID == p.tunnelTEID {
+				p.UPAllocateFteid = true
+			}
+		}
+
 		err = session.UpdatePDR(p)
 		if err != nil {
 			logger.PfcpLog.Errorln("session PDR update failed", err)
